@@ -31,23 +31,23 @@ KNOWN = json.load(open(os.path.join(ROOT, "known_findings.json")))
 PROJ = {
     "C01": None,
     "C02": {"write", "canproceed", "proceed", "cwrite", "cbwrite", "cfinished", "hdr"},
-    "C03": {"bwrite", "bwriten", "canproceed", "proceed", "chunked?"},
+    "C03": {"bwrite", "bwriten", "canproceed", "proceed", "chunked?", "cbwrite", "cfinished", "cinto"},
     "C04": {"bwrite", "bwriten", "direct", "canproceed", "proceed", "cbwrite", "cfinished", "cinto"},
-    "C05": {"resp", "cresp", "parse-resp", "canproceed"},
+    "C05": {"resp", "cresp", "parse-resp", "canproceed", "cinto", "cfinished"},
     "C06": {"resp", "mode", "proceed", "cresp", "cbody", "bread", "canproceed"},
-    "C07": {"bread", "canproceed", "boundary", "proceed", "stopb", "cread", "cended"},
+    "C07": {"bread", "canproceed", "boundary", "proceed", "stopb", "cread", "cended", "cstopb", "cboundary"},
     "C08": {"bread", "canproceed", "proceed", "mode", "close?", "cread", "cended", "cbody", "cresp"},
     "C09": None,
     "C10": {"close?", "reason", "new", "resp", "read100", "proceed"},
     "C11": {"read100", "keep100", "proceed", "resp", "canproceed", "close?"},
     "C12": None,
-    "C13": {"follow", "write", "uri?", "new"},
+    "C13": {"follow", "write", "uri?", "new", "hmap"},
     "C14": {"follow", "uri?", "write", "resp"},
     "C15": {"follow", "status", "method?", "proceed"},
-    "C16": {"hdr", "write", "follow"},
+    "C16": {"hdr", "write", "follow", "hmap"},
     "C17": {"write", "cwrite", "cbwrite", "canproceed", "cfinished", "new", "cnew", "proceed"},
     "C18": {"maxin", "bwrite", "bwriten"},
-    "C19": {"maxin", "bwrite", "bwriten"},
+    "C19": {"maxin", "bwrite", "bwriten", "cbwrite"},
     "C20": {"parse-resp", "parse-partial", "parse-req"},
 }
 
